@@ -10,7 +10,7 @@ THEOREMS = ["Cspuz.C10.C10_exact_aux", "Cspuz.C10.C10_exact_prim", "Cspuz.C10.C1
 def correspond(ctx):
     ctx.extra["rule"] = ("all frame sizes 0..3 x 0..3, single_cycle on/off, use_graph_primitive on/off, through both public entry points; "
                          "program emitted by the real active_edges_connected_crossable (incl. the 3-nodes-per-point auxiliary graph and the "
-                         "two returned arrays) vs the Lean model")
+                         "two returned arrays) vs the Lean model; + four larger frames (4x5, 3x6, 6x6, 5x4)")
     graphcorr.run_cases(ctx, graphcorr.case_crossable, ctx.n(120, 1500), "crossable", with_ids=True,
                         bigs=[("frame", 4, 5), ("frame", 3, 6), ("frame", 6, 6), ("frame", 5, 4)])
     if not ctx.quick():
@@ -244,6 +244,18 @@ def parse_picture(picture):
 # fixed corpus: longest trails known for the two smallest frames on which "number of segments" exceeds (points + segments) // 2:
 # a closed trail through all 30 points of a 4x5 frame (40 segments) and an open trail of 37 segments on a 3x6 frame
 CORPUS = [parse_picture(p) for p in ("""
++   +---+
+    |   |
++---+---+
+|   |
++---+   +
+""", """
++   +---+
+    |
++---+---+
+|   |
++   +---+
+""", """
 +   +---+   +---+---+
     |   |   |       |
 +---+---+---+---+   +
@@ -261,18 +273,6 @@ CORPUS = [parse_picture(p) for p in ("""
 +---+---+---+---+---+---+
 |   |   |   |   |   |   |
 +---+   +---+   +   +---+
-""", """
-+   +---+
-    |   |
-+---+---+
-|   |
-+---+   +
-""", """
-+   +---+
-    |
-+---+---+
-|   |
-+   +---+
 """)]
 
 DENSE_FRAMES = ((4, 5), (3, 6), (5, 4), (6, 3), (4, 4), (5, 5), (4, 6))
